@@ -488,7 +488,7 @@ func TestC05Loop(t *testing.T) {
 			steps[i] = st
 		}
 		var trace []string
-		synctest.Test(c.T, func(t *testing.T) {
+		inBubble(c, func(t *testing.T) {
 			ctx, cancel := context.WithCancel(context.Background())
 			defer cancel()
 			q := queue.NewTasksQueue()
